@@ -191,6 +191,27 @@ def _close(keys, i):
     return len(keys)
 
 
+def hoist_insert_with(keys):
+    """MySQL / Oracle write the common table expressions of INSERT .. SELECT immediately before the SELECT (they have no WITH in front of
+    INSERT): move that WITH clause to the front, where the other classes write it. -> (keys, moved?)"""
+    if not keys or keys[0] not in (("word", "INSERT"), ("word", "REPLACE")):
+        return keys, False
+    d = 0
+    w = None
+    for i, k in enumerate(keys):
+        if k == ("punct", "("):
+            d += 1
+        elif k == ("punct", ")"):
+            d -= 1
+        elif d == 0 and k == ("word", "WITH") and w is None:
+            w = i
+        elif d == 0 and k == ("word", "SELECT") and w is not None:
+            return keys[w:i] + keys[:w] + keys[i:], True
+        elif d == 0 and k == ("word", "SELECT"):
+            return keys, False
+    return keys, False
+
+
 def has_aliased_groupby(p):
     txt = json.dumps(p)
     i = txt.find('"groupby", [["as"')
@@ -275,6 +296,9 @@ def check_neutral(p):
                 if cls == "sqlite":
                     keys = sqlite_compound_operands(keys)
                 keys = strip_operand_brackets(keys)
+                hoisted = False
+                if cls in ("mysql", "oracle"):
+                    keys, hoisted = hoist_insert_with(keys)
             if groupby_aliased and cls in NO_GROUPBY_ALIAS:
                 continue
             if base is None:
@@ -283,7 +307,8 @@ def check_neutral(p):
             if keys != base[1]:
                 out.append((mksig("cross_class", cls, _first_diff(base[1], keys)), "%s vs %s (%s): %r vs %r" % (base[0], cls, "parameterised" if par else "inline", base[2], sql)))
                 break
-            if par and [repr(v) for v in (vals or [])] != [repr(v) for v in (base[3] or [])]:
+            hv = not isinstance(keys, str) and cls in ("mysql", "oracle") and hoisted  # the values follow the text: compared as a multiset then
+            if par and (sorted if hv else list)([repr(v) for v in (vals or [])]) != (sorted if hv else list)([repr(v) for v in (base[3] or [])]):
                 out.append((mksig("cross_class_values", cls), "%r vs %r" % (base[3], vals)))
                 break
     # (a2) inner queries built with the generic class
